@@ -390,6 +390,7 @@ class Interp:
         self.max_unknown_len = 2       # an unknown collection is iterated with 0..max_unknown_len unknown elements
         self._modenv = {}
         self.bypass_stub_once = None
+        self.call_stack = []           # (module.rel, lineno) of the call expressions being evaluated, innermost last
 
     # ------------------------------------------------------------ helpers
     def fresh(self, hint="v"):
@@ -1795,6 +1796,13 @@ class Interp:
         return out
 
     def e_Call(self, e, env, module):
+        self.call_stack.append((module.rel, e.lineno))
+        try:
+            return self._e_call(e, env, module)
+        finally:
+            self.call_stack.pop()
+
+    def _e_call(self, e, env, module):
         f = self.eval(e.func, env, module)
         args = []
         for a in e.args:
